@@ -164,3 +164,28 @@ closed spec fn put_slice_eff(pre: &Self, post: &Self, src: Seq<u8>) -> bool { T:
 '''
 U.macro_block("src/buf/buf_mut.rs", "deref_forward_bufmut", "unsafe impl<T: BufMut + ?Sized> BufMut for &mut T", fwd_fns, spec_items=SPEC_FWD)
 U.macro_block("src/buf/buf_mut.rs", "deref_forward_bufmut", "unsafe impl<T: BufMut + ?Sized> BufMut for Box<T>", fwd_fns, spec_items=SPEC_FWD)
+
+# ---- Writer<B> --------------------------------------------------------------------------------
+U.text(r"""
+#[verifier::external_type_specification]
+#[verifier::external_body]
+pub struct ExIoError(std::io::Error);
+mod io { pub use std::io::Result; }
+impl<B> Writer<B> { pub closed spec fn spec_buf(&self) -> B { self.buf } }
+""")
+U.struct("src/buf/writer.rs", "struct Writer<B>")
+U.free_fn("src/buf/writer.rs", "new", Fn(ret="r", spec="ensures r.spec_buf() == buf,"), wrap_mod="writer")
+U.block("src/buf/writer.rs", "impl<B: BufMut> Writer<B>", fns={
+    "get_ref": Fn(ret="r", spec="ensures *r == self.spec_buf(),"),
+    "into_inner": Fn(ret="r", spec="ensures r == self.spec_buf(),"),
+})
+U.block("src/buf/writer.rs", "impl<B: BufMut + Sized> io::Write for Writer<B>", emit_header="impl<B: BufMut + Sized> Writer<B>", fns={
+    "write": Fn(ret="r", spec="""ensures
+    // accepts min(available, offered) bytes - exactly that prefix of src - and never fails
+    ({ let n = min_nat(sat((*old(self)).spec_buf().rem()), src@.len());
+       r == Ok::<usize, std::io::Error>(n as usize)
+       && (*final(self)).spec_buf().rem() == (*old(self)).spec_buf().rem() - n
+       && B::put_slice_eff(&(*old(self)).spec_buf(), &(*final(self)).spec_buf(), src@.take(n as int)) }),""",
+                hints=[("before", "Ok(n)", "proof { assert(src@.subrange(0, n as int) =~= src@.take(n as int)); }")]),
+    "flush": Fn(ret="r", spec="ensures r is Ok, (*final(self)).spec_buf() == (*old(self)).spec_buf(),"),
+})
